@@ -877,6 +877,27 @@ func checkDiskGate(w *World, r *Report) {
 		return
 	}
 	e.useCtor(T, ctor)
+	// the verdict is taken afresh on every call: no path returns without having asked the disk helper (a remembered
+	// verdict would let a start through after the disk filled up, or refuse one after space was freed)
+	{
+		isDiskHelper := func(in ssa.Instruction) bool {
+			c, ok := in.(*ssa.Call)
+			if !ok {
+				return false
+			}
+			h := c.Call.StaticCallee()
+			if h == nil || h.Pkg != fn.Pkg {
+				return false
+			}
+			res := h.Signature.Results()
+			if res.Len() != 2 {
+				return false
+			}
+			bt, ok := res.At(0).Type().Underlying().(*types.Basic)
+			return ok && bt.Kind() == types.Bool && res.At(1).Type().String() == "error"
+		}
+		r.Check(!returnsWithout(fn, isDiskHelper), "S5", "CheckCanRecord asks the disk helper on every call (no remembered verdict)", w.Pos(fn.Pos()), "")
+	}
 	paths, complete := enumPaths(e, fn, 64)
 	if !complete {
 		r.Unknown("S5", "CPTVFileRecorder.CheckCanRecord", w.Pos(fn.Pos()), "function has loops: path enumeration incomplete")
@@ -1095,6 +1116,7 @@ func propC13(w *World, r *Report) {
 	// ... and so do the continuous and test recordings: whatever the stop forced by a bad frame returns, their
 	// bookkeeping agrees with the sink afterwards (the next good frame opens a new file instead of writing to a closed one)
 	checkSinkBookkeeping(w, r, runs.fault, "B2", roleContinuous, roleTest)
+	checkStopToleratesClosed(w, r, "B2") // the bad-frame path stops the continuous recorder whether or not a file is open
 	// B3
 	ps := eventsOfKind(run, "obs:parse", -1)
 	for _, ev := range ps {
@@ -1421,6 +1443,16 @@ func checkAuxWiring(w *World, r *Report, runs *motionRuns) {
 			}
 			r.Check(okf, "V5", "daemon wiring: "+c.RoleNames[role]+" sink is a bare file recorder (never throttled)", w.InstrPos(st.Call), "dynamic types: "+strings.Join(names, ","))
 			if role == roleContinuous {
+				// the continuous recorder is present exactly when the constant-recorder setting is on: the argument is
+				// "setting ? a file recorder : nil", with nothing else able to turn it off (a failing Mkdir of a folder
+				// that already exists - every connection after the first - must not silently drop it)
+				at := newTermEnv(w).termOf(arg)
+				for at.Op == "call" && len(at.Args) == 1 && (strings.HasPrefix(at.Name, "convert") || strings.HasPrefix(at.Name, "iface")) {
+					at = at.Args[0]
+				}
+				okSel := at.Op == "select" && len(at.Args) == 3 && strings.HasPrefix(at.Args[0].String(), "recorder.RecorderConfig.ConstantRecorder@") &&
+					at.Args[1].Op != "select" && at.Args[1].Op != "phi" && at.Args[1].String() != "nil" && (at.Args[2].String() == "nil" || strings.HasSuffix(at.Args[2].String(), "(nil)"))
+				r.Check(okSel, "V5", "daemon wiring: the continuous recorder is handed to the processor exactly when constant-recorder is set", w.InstrPos(st.Call), at.String())
 				// SetAsConstantRecorder called on it
 				called := false
 				var setter *ssa.Function
